@@ -245,6 +245,12 @@ func (s *Session) bind(o *Config) {
 		return
 	}
 
+	if iq.Type != stanza.IQTypeResult {
+		// An error reply may echo the <bind/> child of the request: it is not a bind result
+		s.err = errors.New("iq bind failed: server replied with iq type " + string(iq.Type))
+		return
+	}
+
 	// TODO Check all elements
 	switch payload := iq.Payload.(type) {
 	case *stanza.Bind:
